@@ -23,17 +23,19 @@ set_option maxRecDepth 8000 in
 set_option maxHeartbeats 4000000 in
 theorem sf_none (e : IterEnv) (s : PollerState) (coarse : TimeSpec) (refid : Option Nat) (file : PhcFile) (tReply tGrace : Int)
     : IterSendFails e s coarse .none tReply tGrace refid file := by
-  fail_start
-  obtain ⟨h0, h1, h2, h3, h4⟩ := hin
-  fail_tie
+  cases refid <;>
+  · fail_start
+    obtain ⟨h0, h1, h2, h3, h4⟩ := hin
+    fail_tie
 
 set_option maxRecDepth 8000 in
 set_option maxHeartbeats 4000000 in
 theorem sf_other (e : IterEnv) (s : PollerState) (coarse : TimeSpec) (refid : Option Nat) (file : PhcFile) (tReply tGrace : Int)
     : IterSendFails e s coarse .other tReply tGrace refid file := by
-  fail_start
-  obtain ⟨h0, h1, h2, h3, h4⟩ := hin
-  fail_tie
+  cases refid <;>
+  · fail_start
+    obtain ⟨h0, h1, h2, h3, h4⟩ := hin
+    fail_tie
 
 set_option maxRecDepth 8000 in
 set_option maxHeartbeats 4000000 in
